@@ -1,7 +1,7 @@
 (* C06 — theorems about the GENERATED call graph (re-proved on every run: the domain is the
    finite, completely enumerated list of entry points; `reach` is proved correct in Reach.v). *)
 From Coq Require Import List Bool Arith NArith Lia.
-From FoxC06 Require Import Graph Reach GenCallGraph Entries.
+From FoxC06 Require Import Graph Reach GenCallGraph Entries Skeleton.
 Import ListNotations.
 
 (* ---------- the generated tables are consistent, every exported method is classified ---------- *)
@@ -35,11 +35,12 @@ Qed.
 (* ---------- reads never wait for writers ---------- *)
 
 Definition WriterBlocking (l : leafk) : Prop :=
-  l = Acquire lock_Router_mu \/ l = ChanOp \/ l = Select \/ l = CondWait \/ l = WaitGroupWait.
+  l = Acquire lock_Router_mu \/ l = ChanOp \/ l = Select \/ l = CondWait \/ l = WaitGroupWait \/
+  l = Sleep \/ l = SpinLoad.
 
 Lemma writer_blocking_spec : forall l, WriterBlocking l -> writer_blocking l = true.
 Proof.
-  intros l [H|[H|[H|[H|H]]]]; subst l; cbn [writer_blocking]; reflexivity.
+  intros l [H|[H|[H|[H|[H|[H|H]]]]]]; subst l; cbn [writer_blocking]; reflexivity.
 Qed.
 
 (* the computation, in the form of the design: one reachability run per entry point *)
@@ -109,14 +110,52 @@ Example guard_is_needed :
   reaches is_router_mu graph [(f_Router_Txn, [Some true])] = true.
 Proof. vm_compute. repeat split; reflexivity. Qed.
 
+(* ---------- the shared-state skeleton is the pinned one ---------- *)
+
+Lemma skeleton_check : sync_inventory_b = true /\ shared_b = true /\ shapes_b = true.
+Proof. vm_compute. repeat split; reflexivity. Qed.
+
+Lemma written_by_writers_eq : fields_from f_writes graph write_entries = Some written_by_writers.
+Proof. vm_compute. reflexivity. Qed.
+
+Lemma read_by_readers_eq : fields_from f_reads graph read_entries = Some read_by_readers.
+Proof. vm_compute. reflexivity. Qed.
+
+Definition Touches (sel : fn -> list N) (es : list state) (k : N) : Prop :=
+  exists e s f, In e es /\ Reachable graph e s /\ lookup graph (fst s) = Some f /\ In k (sel f).
+
+Lemma strs_eqb_eq : forall a b, strs_eqb a b = true -> a = b.
+Proof.
+  induction a as [|x a IH]; destruct b as [|y b]; cbn [strs_eqb]; intro H; try discriminate H; [reflexivity|].
+  apply andb_true_iff in H. destruct H as [H1 H2]. apply String.eqb_eq in H1. subst. f_equal. apply IH. exact H2.
+Qed.
+
+Lemma shared_pinned_check : shared_pinned_b = true.
+Proof. vm_compute. reflexivity. Qed.
+
+(* a field / package variable that a function reachable from a write entry writes and a function
+   reachable from a read entry reads is one of the pinned ones *)
+Theorem shared_state_is_pinned : forall k,
+  Touches f_writes write_entries k -> Touches f_reads read_entries k -> In (fname k) expected_shared.
+Proof.
+  intros k Hw Hr.
+  apply (fields_from_spec f_writes graph write_entries _ written_by_writers_eq k) in Hw.
+  apply (fields_from_spec f_reads graph read_entries _ read_by_readers_eq k) in Hr.
+  pose proof shared_pinned_check as H. unfold shared_pinned_b in H.
+  rewrite forallb_forall in H. specialize (H k Hw).
+  apply memN_In in Hr. rewrite Hr in H. cbn [negb orb] in H.
+  unfold mem_str in H. apply existsb_exists in H. destruct H as [x [Hx He]].
+  apply String.eqb_eq in He. rewrite He. exact Hx.
+Qed.
+
 (* ---------- non-vacuity of reach_sound_complete: a small graph with a guarded lock ---------- *)
 
 Definition tiny : Graph.graph :=
-  [ mkfn 1 [mkedge [] 1%N [AParam 0; AConst true]] [];                 (* 0: Txn(write) -> txnWith(write, true) *)
+  [ mkfn 1 [mkedge [] 1%N [AParam 0; AConst true]] [] [] [];                 (* 0: Txn(write) -> txnWith(write, true) *)
     mkfn 2 [mkedge [(1, true)] 2%N []; mkedge [(0, false)] 3%N []]
-           [mkleaf [(0, true)] (Acquire 7%N)];                          (* 1: txnWith: if write { Lock } *)
-    mkfn 0 [mkedge [] 0%N [AUnk]] [mkleaf [] ChanOp];                   (* 2: calls Txn(?) again; chan op *)
-    mkfn 0 [] [] ].                                                     (* 3 *)
+           [mkleaf [(0, true)] (Acquire 7%N)] [] [];                        (* 1: txnWith: if write { Lock } *)
+    mkfn 0 [mkedge [] 0%N [AUnk]] [mkleaf [] ChanOp] [] [];                   (* 2: calls Txn(?) again; chan op *)
+    mkfn 0 [] [] [] [] ].                                                     (* 3 *)
 
 Example tiny_reach :
   reach tiny [(0%N, [Some false])]
